@@ -322,6 +322,56 @@ func mapRangeOrderSensitive(p *Prog, a *Anchors, rg *ssa.Range) (bool, string) {
 			}
 		}
 	}
+	// "collect the keys, then sort them": a slice that only accumulates in the loop and is handed to sort.* right
+	// after it, before any other use, does not carry the map's order out of the loop
+	sortedAcc := map[ssa.Value]bool{}
+	f := header.Parent()
+	for _, in := range header.Instrs {
+		phi, ok := in.(*ssa.Phi)
+		if !ok {
+			continue
+		}
+		if _, isSlice := phi.Type().Underlying().(*types.Slice); !isSlice {
+			continue
+		}
+		var sortCall ssa.Instruction
+		otherUseOutside := false
+		for _, u := range refs(phi) {
+			if seen[u.Block()] && u.Block() != header || u.Block() == header {
+				continue // uses inside the loop (the append)
+			}
+			if c, isCall := u.(*ssa.Call); isCall && c.Common().StaticCallee() != nil {
+				n := p.extName(c.Common().StaticCallee())
+				if n == "sort.Strings" || n == "sort.Ints" || n == "sort.Float64s" || n == "sort.Slice" || n == "sort.SliceStable" || n == "slices.Sort" {
+					sortCall = c
+					continue
+				}
+			}
+			if _, isMI := u.(*ssa.MakeInterface); isMI {
+				continue // argument of sort.Slice(any, less)
+			}
+			if _, isRet := u.(*ssa.Return); isRet {
+				continue
+			}
+			if _, isPhi := u.(*ssa.Phi); isPhi {
+				continue
+			}
+			otherUseOutside = true
+		}
+		if sortCall == nil || otherUseOutside {
+			continue
+		}
+		// every return passes the sort
+		all := true
+		for _, ret := range returnsOf(f) {
+			if !MustPass(ret, func(x ssa.Instruction) bool { return x == sortCall }) {
+				all = false
+			}
+		}
+		if all {
+			sortedAcc[phi] = true
+		}
+	}
 	// early exits: blocks that cannot get back to the header are exits; if such a block returns a
 	// non-constant value the result depends on which key came first.
 	// (blocks after the loop are reachable only through the header's false edge, which we stop at.)
@@ -339,6 +389,9 @@ func mapRangeOrderSensitive(p *Prog, a *Anchors, rg *ssa.Range) (bool, string) {
 					return true, "executes nodes inside the loop"
 				}
 				if b, ok := cc.Value.(*ssa.Builtin); ok && b.Name() == "append" {
+					if sortedAcc[cc.Args[0]] {
+						continue // keys collected for sorting
+					}
 					return true, "appends inside the loop (element order follows map order)"
 				}
 			}
@@ -348,6 +401,9 @@ func mapRangeOrderSensitive(p *Prog, a *Anchors, rg *ssa.Range) (bool, string) {
 	for _, in := range header.Instrs {
 		if phi, ok := in.(*ssa.Phi); ok {
 			_ = next
+			if sortedAcc[phi] {
+				continue
+			}
 			return true, "loop-carried value " + phi.Name() + " (" + phi.Comment + ") accumulates in map order"
 		}
 	}
